@@ -274,8 +274,13 @@ func (t *tr) evSelector(x *ast.SelectorExpr) Term {
 			base := t.ev(x.X)
 			return t.loadPath(base, sel.Index(), x.Pos())
 		case types.MethodVal:
-			t.errorf(x.Pos(), "method value %s not supported", x.Sel.Name)
-			return t.havocTerm("mval", t.typeOf(x))
+			// method value: an opaque function value determined by the method and its receiver
+			base := t.ev(x.X)
+			name := "mval$" + funcKey(sel.Obj().(*types.Func))
+			t.V.W.declFun(name, []string{base.Sort}, SInt)
+			r := app(sym(name), SInt, base)
+			r.T = t.typeOf(x)
+			return r
 		}
 	}
 	// qualified identifier
